@@ -11,7 +11,8 @@ from harness import common, tlc, trace
 from harness import constraints_lib as cl
 from harness import db_lib as dbl
 
-TEXT_ATTRS = ['plain', '', "it's", 'dq"x', 'back\\slash', 'ünï☃', '%_like', 'semi;colon', '  spaced ', 'NULL', '--c', "''", 'a\nb']
+TEXT_ATTRS = ['plain', '', "it's", 'dq"x', 'back\\slash', 'ünï☃', '%_like', 'semi;colon', '  spaced ', 'NULL', '--c', "''", 'a\nb',
+              'line\u2028sep', 'para\u2029sep', 'next\x85line']
 COLNAMES = ['c', 'Value', 'col_1', 'select', 'with space', 'ünï', 'x-y']
 
 
@@ -181,9 +182,11 @@ def run(chk):
                 else:
                     pert = []
             elif kind == 'int':
-                vals = [rnd.choice([-5, 0, 3, 2**40, None]) for _ in range(rnd.randint(1, 6))]
+                vals = [rnd.choice([-5, 0, 3, 2**40, None, 2**53 + 1, 2**53 + 3, -(2**53 + 1), 2**62 + 3, 2**63 - 3]) for _ in range(rnd.randint(1, 6))]
                 sqltype = 'INTEGER'
-                pert = [('max', 2**50)] if any(v is not None for v in vals) else []
+                nn_ = [v for v in vals if v is not None]
+                big_ = max((abs(v) for v in nn_), default=0)
+                pert = [('max', big_ * 2 + 1000)] if nn_ and big_ < 2**61 else []       # far beyond (fuzzy bounds are floats), inside SQLite's integers
             else:
                 vals = [rnd.choice([-2.5, 0.0, 1e300, 1e-300, 3.25, None]) for _ in range(rnd.randint(1, 6))]
                 sqltype = 'REAL'
